@@ -374,6 +374,7 @@ K_LAST_SEG = "last_reports_time_of_newer_row_of_multi_segment_file"
 K_GLIMIT = "limit_on_grouped_aggregate_changes_bucket_values"
 K_GLIMIT_SEL = "limit_on_tag_and_time_grouped_aggregate_selects_other_rows"
 K_FILL_STR = "fill_previous_forgets_string_of_single_value_chunk"
+K_FILL_STR_ALIAS = "fill_previous_string_overwritten_when_chunk_buffer_is_reused"
 K_DESC_TAG_LOST = "desc_tag_group_time_bucket_value_lost_at_chunk_boundary"
 K_COUNT_NULL = "count_null_instead_of_zero_next_to_other_calls"
 K_GAP_BATCH = "time_bucket_value_moves_to_the_bucket_of_the_previous_value_with_file_and_memtable_rows"
@@ -415,6 +416,9 @@ def defect_model_kind(ds, st, layout, ans, n=None):
     if fprev and selector in ("first", "last") and not st["gbtag"] and M.call_field_type(ds, st) == "string" and \
             fits(M.relaxed_fill_expectation(ds, st, or_null=True, fill_prev_iteration_order=bool(st["desc"]))):
         return K_FILL_STR          # a filled cell is the right string or null; every non-empty bucket is right
+    if fprev and selector in ("first", "last") and not st["gbtag"] and M.call_field_type(ds, st) == "string" and \
+            fits(M.relaxed_fill_expectation(ds, st, fill_prev_iteration_order=bool(st["desc"]))):
+        return K_FILL_STR_ALIAS    # a filled cell holds bytes of a later string (same length as the right one); the rest is right
     if fprev and st["gbtag"] and fits(M.relaxed_fill_expectation(ds, st)):
         return K_FILL_TAGS
     if fprev and st["gbtag"] and st["desc"] and selector in ("first", "last") and \
@@ -425,7 +429,7 @@ def defect_model_kind(ds, st, layout, ans, n=None):
     if agg and st["w"] and st["desc"] and st["gbtag"] and st["fill"] in (None, "0") and \
             fits(M.evaluate(ds, st, lossy=True, count_cell_null=True)):
         return K_DESC_TAG_LOST     # every cell is right or shows the empty-bucket value (a value was lost), nothing else
-    if agg and st["w"] and ((layout == "late" and n == 2) or (layout == "seq_mem" and st["desc"] and n in (1, 2))) and \
+    if agg and st["w"] and n in (1, 2) and (layout in ("late", "late_flushed") or (layout == "seq_mem" and st["desc"])) and \
             M.field_null_between_values(ds, st):
         return K_GAP_BATCH         # classified by its trigger (data partly in a file and partly in the memtable, a small batch
         #                            in which the aggregated field is null in every row)
